@@ -288,7 +288,7 @@ def stack_write(self, g, n0, n1, write_ics, write_adj_deps, storage):
     k = len(g.cs)
     assert write_ics and not write_adj_deps, "C03:restart_checkpoints_only"
     assert k < len(self._storage), "C03:unit_available"
-    assert storage == self._storage[k], "C14:stack_position_keeps_one_storage"
+    assert storage == self._storage[k], "C01,C14:stack_position_keeps_one_storage"
     assert self.uses_storage_type(storage), "C11:uses_storage_type_true_for_every_storage_touched"
     assert forall(0, k, lambda i: g.cs[i] != n0), "C01:no_overwrite"
     g.cs.append(n0)
